@@ -84,4 +84,6 @@ package writer
 //@   ghost_set verif_ghost.kSecIns = verif_ghost.kSecIns + 1
 //@ func (prollyKeylessSecondaryWriter).Update
 //@   property C27
+//@   at call Delete: assert verif_sameslice(arg2:sql.Row, oldRow)
+//@   at call Insert: assert verif_sameslice(arg2:sql.Row, newRow)
 //@   ensures err == nil ==> verif_ghost.kSecDel == verif_old(verif_ghost.kSecDel) + 1 && verif_ghost.kSecIns == verif_old(verif_ghost.kSecIns) + 1
